@@ -750,3 +750,63 @@ Proof.
   intros H. pose proof (table_sound _ env _ _ H) as E. split; [ exact E | ].
   unfold apply_auth. rewrite E. reflexivity.
 Qed.
+
+(* ---------------------------------------------------------------- migration *)
+Theorem migrate_only_wasm_admin st ex : migrate_step st false ex = Err.
+Proof. reflexivity. Qed.
+
+(* without an explicit parameter message a migrate changes nothing the queries show *)
+Theorem migrate_frame st adm st' : migrate_step st adm None = Ok st' -> st' = st.
+Proof. unfold migrate_step. destruct adm; cbn; intros H; inv H. reflexivity. Qed.
+
+(* a minter's Status (and admin, and the Params it reads) survive every migrate *)
+Theorem migrate_keeps_minter f s adm ex st' : migrate_step (AMinter f s) adm ex = Ok st' -> st' = AMinter f s.
+Proof. unfold migrate_step. destruct adm, ex; cbn; intros H; inv H. reflexivity. Qed.
+
+Lemma user_step_minter f s env sender u st' : user_step (AMinter f s) env sender u = Ok st' -> st' = AMinter f s.
+Proof.
+  destruct u as [m|adm ex]; cbn [user_step].
+  - apply minter_execute_keeps_admin_status_params.
+  - apply migrate_keeps_minter.
+Qed.
+
+Lemma user_step_factory p env sender u st' :
+  no_explicit_params (env, sender, u) = true -> user_step (AFactory p) env sender u = Ok st' -> st' = AFactory p.
+Proof.
+  destruct u as [m|adm ex]; cbn [user_step no_explicit_params snd].
+  - intros _. apply factory_execute_keeps_params.
+  - destruct ex; [ discriminate | ]. intros _. apply migrate_frame.
+Qed.
+
+(* no message a user account can send - execute or migrate - changes a minter's Status
+   (admin, Params) in any reachable state *)
+Theorem no_user_message_changes_minter_status f s cs : run_user (AMinter f s) cs = AMinter f s.
+Proof.
+  induction cs as [|[[env sender] u] cs IH]; cbn [run_user fold_left]; [ reflexivity | ].
+  assert (E : apply_user (AMinter f s) (env, sender, u) = AMinter f s).
+  { unfold apply_user. destruct (user_step (AMinter f s) env sender u) as [st'|] eqn:E; [ | reflexivity ].
+    apply user_step_minter in E. exact E. }
+  rewrite E. exact IH.
+Qed.
+
+(* nor a factory's Params, as long as no migrate carries an explicit parameter message *)
+Theorem no_user_message_changes_factory_params p cs :
+  forallb no_explicit_params cs = true -> run_user (AFactory p) cs = AFactory p.
+Proof.
+  induction cs as [|[[env sender] u] cs IH]; cbn [run_user fold_left forallb]; [ reflexivity | ].
+  intros H. apply andb_true_iff in H. destruct H as [H1 H2].
+  assert (E : apply_user (AFactory p) (env, sender, u) = AFactory p).
+  { unfold apply_user. destruct (user_step (AFactory p) env sender u) as [st'|] eqn:E; [ | reflexivity ].
+    apply (user_step_factory _ _ _ _ _ H1) in E. exact E. }
+  rewrite E. exact (IH H2).
+Qed.
+
+(* the exception is exactly: wasm admin + explicit parameters + a factory *)
+Theorem migrate_changes_state_only_by_admin_explicit_params st adm ex st' :
+  migrate_step st adm ex = Ok st' -> st' <> st ->
+  adm = true /\ exists p q, st = AFactory p /\ ex = Some q /\ st' = AFactory q.
+Proof.
+  unfold migrate_step. destruct adm; cbn [negb]; [ | discriminate ].
+  destruct ex as [q|]; [ | intros H Hd; inv H; contradiction Hd; reflexivity ].
+  destruct st; try discriminate. intros H _. inv H. split; [ reflexivity | eauto ].
+Qed.
